@@ -33,8 +33,8 @@ func (Prop) SelfTest() error {
 const horizon = 11
 
 func (Prop) Rule() string {
-	return "Added dimensions: Hash_DRBG and HMAC_DRBG over every accepted hash (SHA-1, SHA-224, SHA-256, SHA-384, SHA-512, SHA-512/224, SHA-512/256, SM3) on a fixed 8-step script; argument layout (entropy/nonce/personalisation and entropy/additional input carved from one record in every order with capacities reaching to its end; outputs = reference, record unmodified). " +
-		"E1 on real generators at SECURITY_LEVEL_TEST (interval 8) for 9 instances (Hash{SM3-GM, SHA-256, SHA-512}, HMAC{SM3 gm-flag, SHA-256}, CTR{SM4-GM, SM4-NIST, AES-128, AES-256}): " +
+	return widenRule + "Added dimensions: Hash_DRBG and HMAC_DRBG over every accepted hash (SHA-1, SHA-224, SHA-256, SHA-384, SHA-512, SHA-512/224, SHA-512/256, SM3) on a fixed 8-step script; argument layout (entropy/nonce/personalisation and entropy/additional input carved from one record in every order with capacities reaching to its end; outputs = reference, record unmodified). " +
+		"E1 on real generators at SECURITY_LEVEL_TEST (interval 8) for 10 instances (Hash{SM3-GM, SHA-256, SHA-512}, HMAC{SM3 gm-flag, SHA-256}, CTR{SM4-GM, SM4-NIST, AES-128, AES-192, AES-256}): " +
 		"alphabet Generate(n,addl) n in {0,1,hs-1,hs,hs+1,max-1,max,max+1} x addl in {0,1,64 bytes}, Reseed(e,addl) e in {0,31,32,64} x addl in {0,1,64} plus Reseed(1), Elapse (clock seam); " +
 		"all histories of length 11 made of the default Generate(hs,none) with <= 2 departures over the full alphabet (both tiers) and <= 3 departures over a reduced 19/17-op alphabet (thorough), " +
 		"BFS with merging on identical (complete private state dump + model state) to depth 3 (quick) / 4 (thorough) from the fresh state and from the state one call before the interval; " +
@@ -61,11 +61,25 @@ func (Prop) Assumptions() []string {
 		"after a failed Read the wrapper is taken to have advanced the generator by the requests served before the failing reseed (keys .../after-fault); (0,nil), short-nil and full+EOF source answers accept an error or success without further comparison",
 		"reseed intervals restated in the harness as 8 / 2^10 / 2^20; requests counted per Generate call as in SP 800-90A (reseed_counter), not per byte",
 		"not covered: prediction resistance, entropy from crypto/rand (nil source), inputs near MAX_BYTES (2^27), concurrency (documented as not goroutine safe), architectures other than amd64",
+		"state injection (inject/...): the fields v, c / key and reseedCounter of the generator are located by name through reflection and overwritten, the model's V, C / Key and reseed_counter are set to the same values; every value of the working state is taken to be reachable by some seed (the mechanisms put no structure on V, C, Key), reseed_counter only takes values a correct generator reaches (1 .. interval+2)",
+		"the GM flag over primitives GM/T 0105 does not name (SHA-256, SHA-512, AES) is taken to mean what it means for SM3/SM4: Hash reseed order, one output block per request, time rule; the library's own minimum lengths there (one digest of entropy, half a digest of nonce) are neither demanded nor forbidden below 64/32 bytes",
+		"SecurityLevel values the package does not name: only 'what is served is the specified output' and 'the 2^20 requests of the weakest named level are not outlived' are demanded",
+		"reader strength: requests <= 0 and, in GM flavours, below the 32-byte minimum may be rejected at construction or fail at the first reseed (observed: NewHmacDrbgPrng(gm=true) accepts strengths below 32 and then cannot reseed, recorded as outcome prng-widen/under-strength/accepted-then-unreseedable, not as a violation)",
+		"not enumerated: the destination of Generate overlapping its additional input (no defined meaning), cipher providers other than SM4/AES (TDEA needs the parity expansion of SP 800-90A, which the constructor's keyLen cannot express)",
 	}
 }
 
+const widenRule = "Widening pass (widen.go): " +
+	"variant/ = the per-instance pipeline (instantiate length product, length sweeps, BFS depth 2 (quick) / 3, deviations <= 1 (quick) / 2 over the full alphabet, level-2 interval, reader with single faults) for 19 further accepted combinations: Hash_DRBG and HMAC_DRBG over each of SHA-1, SHA-224, SHA-384, SHA-512/224, SHA-512/256, SM3 (NIST flavour), HMAC_DRBG over SHA-512, the GM flag over SHA-256 and SHA-512 (Hash, HMAC) and over AES-128 / AES-256 (CTR) through the generic constructors; " +
+	"cap/ = 5 capacity classes (no spare, 1 byte, one short of / exactly the room an append of the neighbouring arguments or the rest of an output block needs, 256 bytes; spare bytes dirty) x 3 personalisation lengths for every slice argument of instantiate / Generate / Reseed incl. the destination, zero-length arguments as nil, empty non-nil and zero length in front of dirty capacity: outputs = model, arguments and spare bytes unmodified; " +
+	"own/ = all arguments and the destination carved from one arena that the harness overwrites after every call (after comparing), same place and length with other content next time, destination directly behind / in front of the additional input, a second generator built from the same slices and both used alternately; " +
+	"pair/ = every unordered pair of the 29 instances (and each with itself, same seed) as two live generators used alternately for 26 steps past the interval; " +
+	"inject/states = V in {random, 0, 2^n-1, 2^n-2, 1, 2^(n-1), 2^(n-1)-1, low w bytes ff with next byte 00 / ff, all above the low w bytes ff} for w in {digest, 8} (Hash) / {4, 8} (CTR) x C or Key patterns x reseed_counter {1, 255, 65535, 2^20} followed by a 5-step script; inject/gate = reseed_counter in interval-2..interval+2 at every level (8, 2^10, 2^20) followed by an 11-step script with reseed and Elapse, 4 unnamed SecurityLevel values; " +
+	"needreseed = NeedReseed() before every Generate of every history equals 'the specification refuses the next request for want of a reseed'; " +
+	"prng-widen/ = requested strengths {-1, 0, 1, 14, 15, 16, 17, 24, 25, 31, 32, 33, 48, 64} with 3 fault kinds at every source call, Read buffers with 0 / 1 / hs-1 / 4hs+5 bytes of sentinel capacity, one buffer reused, nil for Read(0), personalisation in a record that is overwritten after construction, every unordered pair of readers on one entropy source used alternately, one Read of interval+1 requests plus a byte at SECURITY_LEVEL_TWO (all instances) and SECURITY_LEVEL_ONE (thorough, one-block flavours) with the reseed demanded at its exact place. "
+
 func probeMax(in *inst) int {
-	e, n, p := stdSeed()
+	e, n, p := in.stdSeed()
 	d, err := in.newLib(drbg.SECURITY_LEVEL_TEST, e, n, p)
 	if err != nil || isNil(d) {
 		return 0
@@ -92,7 +106,7 @@ func (Prop) Run(c *engine.Ctx) {
 		libMax := probeMax(in)
 		if libMax <= 0 {
 			c.Case(in.name+"/instantiate-standard", func(t *engine.T) {
-				e, n, p := stdSeed()
+				e, n, p := in.stdSeed()
 				newState(in, drbg.SECURITY_LEVEL_TEST, testInterval, e, n, p, t)
 				t.Eval(1)
 			})
@@ -167,6 +181,8 @@ func (Prop) Run(c *engine.Ctx) {
 		// F. DrbgPrng
 		prngCases(c, in, libMax, lite)
 	}
+	// G. the dimensions of the widening pass (widen.go)
+	runWiden(c)
 }
 
 // instantiateLengths: the full product of entropy x nonce x personalisation lengths, each accepted
@@ -179,7 +195,7 @@ func instantiateLengths(t *engine.T, in *inst, libMax int) {
 	script := []op{
 		{kind: opGen, n: in.hs, name: fmt.Sprintf("Generate(%d,addl=0)", in.hs)},
 		{kind: opGen, n: second, addl: 1, name: fmt.Sprintf("Generate(%d,addl=1)", second)},
-		{kind: opReseed, e: okFromE, addl: 64, name: "Reseed(e=32,addl=64)"},
+		{kind: opReseed, e: in.okE(), addl: 64, name: fmt.Sprintf("Reseed(e=%d,addl=64)", in.okE())},
 		{kind: opGen, n: libMax, name: fmt.Sprintf("Generate(%d,addl=0)", libMax)},
 		{kind: opGen, n: 1, addl: 64, name: "Generate(1,addl=64)"},
 	}
@@ -191,7 +207,7 @@ func instantiateLengths(t *engine.T, in *inst, libMax int) {
 				s, err := tryNewState(in, drbg.SECURITY_LEVEL_TEST, testInterval, e, n, p, t)
 				what := fmt.Sprintf("[%s] instantiate(entropy %d, nonce %d, pers %d bytes)", in.name, le, ln, lp)
 				if err != nil {
-					if le >= okFromE && ln >= okFromN {
+					if le >= in.okE() && ln >= in.okN() {
 						t.Fail("new/spurious-error/"+in.tag(), "%s failed: %v", what, err)
 						return
 					}
@@ -230,8 +246,12 @@ func instantiateLengths(t *engine.T, in *inst, libMax int) {
 // lengthSweeps (E2 complement of the histories): every request size 0..max+1 with and without
 // additional input on one long-lived generator (reseeded whenever the model demands it), and every
 // entropy / additional-input / personalisation length over several hash-block and df-padding residues.
-func lengthSweeps(t *engine.T, in *inst, libMax int) {
-	e, n, p := stdSeed()
+func lengthSweeps(t *engine.T, in *inst, libMax int) { lengthSweepsOpt(t, in, libMax, false) }
+
+// lengthSweepsOpt, lite (variant instances in the quick tier): request sizes 0..4*hs+2 and the three around the
+// maximum instead of every size, 18 instead of 50 reseed entropy lengths.
+func lengthSweepsOpt(t *engine.T, in *inst, libMax int, lite bool) {
+	e, n, p := in.stdSeed()
 	s := newState(in, drbg.SECURITY_LEVEL_TEST, testInterval, e, n, p, t)
 	step := func(o op) bool {
 		if len(s.hist) > 6 {
@@ -242,13 +262,16 @@ func lengthSweeps(t *engine.T, in *inst, libMax int) {
 	}
 	gen := func(n, addl int) bool {
 		if uint64(s.gens) >= s.interval {
-			if !step(op{kind: opReseed, e: okFromE + n%7, addl: n % 3, name: fmt.Sprintf("Reseed(e=%d,addl=%d)", okFromE+n%7, n%3)}) {
+			if !step(op{kind: opReseed, e: in.okE() + n%7, addl: n % 3, name: fmt.Sprintf("Reseed(e=%d,addl=%d)", in.okE()+n%7, n%3)}) {
 				return false
 			}
 		}
 		return step(op{kind: opGen, n: n, addl: addl, name: fmt.Sprintf("Generate(%d,addl=%d)", n, addl)})
 	}
 	for n := 0; n <= libMax+1; n++ {
+		if lite && n > 4*in.hs+2 && n < libMax-1 {
+			continue
+		}
 		for _, a := range []int{0, 1 + n%70} {
 			if !gen(n, a) {
 				return
@@ -264,7 +287,10 @@ func lengthSweeps(t *engine.T, in *inst, libMax int) {
 		t.Nontrivial(fmt.Sprintf("sweep/gen-addl/%s/%d", in.name, a))
 	}
 	// reseed: entropy x additional lengths
-	for le := okFromE; le <= okFromE+49; le++ {
+	for le := in.okE(); le <= in.okE()+49; le++ {
+		if lite && le > in.okE()+17 {
+			break
+		}
 		for _, la := range []int{0, 1, 2, 3, 4, 5, 6, 7, 8, 9, 10, 11, 12, 13, 14, 15, 16, 17, 63, 64, 65, 127, 128, 129} {
 			if !step(op{kind: opReseed, e: le, addl: la, name: fmt.Sprintf("Reseed(e=%d,addl=%d)", le, la)}) ||
 				!step(op{kind: opGen, n: in.hs, name: fmt.Sprintf("Generate(%d,addl=0)", in.hs)}) {
@@ -275,8 +301,8 @@ func lengthSweeps(t *engine.T, in *inst, libMax int) {
 	}
 	// instantiate: personalisation lengths 0..150 with minimal entropy/nonce, one output block each
 	for lp := 0; lp <= 150; lp++ {
-		s = newState(in, drbg.SECURITY_LEVEL_TEST, testInterval, det(roleEntropy, okFromE), det(roleNonce, okFromN), det(rolePers, lp), t)
-		s.hist = append(s.hist, fmt.Sprintf("instantiate(32,16,%d)", lp))
+		s = newState(in, drbg.SECURITY_LEVEL_TEST, testInterval, det(roleEntropy, in.okE()), det(roleNonce, in.okN()), det(rolePers, lp), t)
+		s.hist = append(s.hist, fmt.Sprintf("instantiate(%d,%d,%d)", in.okE(), in.okN(), lp))
 		if !step(op{kind: opGen, n: in.hs, addl: lp % 5, name: fmt.Sprintf("Generate(%d,addl=%d)", in.hs, lp%5)}) {
 			return
 		}
@@ -287,11 +313,11 @@ func lengthSweeps(t *engine.T, in *inst, libMax int) {
 // levelBoundary: at another security level, exactly `interval` one-byte requests are served (every
 // output compared), the next one is refused until a reseed; then the same for the time rule.
 func levelBoundary(t *engine.T, in *inst, level drbg.SecurityLevel, interval uint64) {
-	e, n, p := stdSeed()
+	e, n, p := in.stdSeed()
 	s := newState(in, level, interval, e, n, p, t)
 	g1 := op{kind: opGen, n: 1, name: "Generate(1,addl=0)"}
 	gh := op{kind: opGen, n: in.hs, addl: 1, name: fmt.Sprintf("Generate(%d,addl=1)", in.hs)}
-	rs := op{kind: opReseed, e: okFromE, name: "Reseed(e=32,addl=0)"}
+	rs := op{kind: opReseed, e: in.okE(), name: fmt.Sprintf("Reseed(e=%d,addl=0)", in.okE())}
 	run := func(o op, times uint64) bool {
 		for i := uint64(0); i < times; i++ {
 			if len(s.hist) > 8 {
